@@ -13,6 +13,7 @@ verus! {
 //@include prelude/models_types.rs
 //@include contracts/metablock_specs.rs
 //@include contracts/stage_specs.rs
+//@include lemmas/owner_gate.rs
 //@include contracts/stage_specs2.rs
 
 // ---- the link builder (real code) ----
